@@ -887,6 +887,30 @@ def persist_script(rng, w):
     return steps
 
 
+def records_script(rng, w):
+    """Directed class: the batch loop - analyse a record, drop everything, analyse the next record of the same kind with
+    the same algorithm classes and parameters in new objects (twice or three times)."""
+    homes = sorted({a["home"] for a in w["algs"]})
+    if not homes:
+        return []
+    si = rng.choice(homes)
+    mine = [i for i, a in enumerate(w["algs"]) if a["home"] == si]
+    t = rng.choice(mine)
+    nm = w["algs"][t]["name"]
+    steps = []
+    for rep in range(rng.randint(2, 3)):
+        if rep:
+            steps.append(lambda r, wd: {"op": "new_record", "setup": si})
+        steps.append(lambda r, wd: {"op": "add", "setup": si, "algs": mine})
+        if rng.random() < 0.7:
+            steps.append(lambda r, wd: {"op": "run", "setup": si, "name": nm})
+        else:
+            steps.append(lambda r, wd: {"op": "run_all", "setup": si})
+        if rng.random() < 0.3:
+            steps.append(lambda r, wd: _mpe_op(r, wd, si, t))
+    return steps
+
+
 def _mpe_op(rng, wd, si, ai, nmodes=None):
     st = wd.st[ai]
     spec = wd.w["algs"][ai]
@@ -1831,6 +1855,9 @@ def run_case(seed, tier="quick", case=None, known=()):
             swarm["epilogue"] = True
         elif not script and rng.random() < 0.16:
             script = persist_script(rng, w)
+            swarm["epilogue"] = True
+        elif not script and rng.random() < 0.12:
+            script = records_script(rng, w)
             swarm["epilogue"] = True
         if script:
             nops = len(script) + rng.randint(0, 2)
